@@ -42,8 +42,8 @@ def gen_data_family(rng, n_roots=(1, 2)):
         ou = rng.sample([u for u in range(1, 90) if u not in used_o], min(n_obs, 89 - len(used_o)))
         used_o.update(ou)
         n_obs = len(ou)
-        n_time = rng.pick([1, 2, 3, 4, 5]) if temporal else 0
-        tu = sorted(rng.sample([t for t in range(0, 31) if t not in used_t], n_time)) if temporal else []
+        n_time = (rng.pick([1, 2, 3, 4, 5]) if not rng.chance(0.2) else rng.randint(17, 30)) if temporal else 0
+        tu = sorted(rng.sample([t for t in range(0, 99) if t not in used_t], n_time)) if temporal else []
         used_t.update(tu)
         if temporal and rng.chance(0.3):
             rng.shuffle(tu)
@@ -55,6 +55,10 @@ def gen_data_family(rng, n_roots=(1, 2)):
                 'descriptors': {'subj': rng.pick(['s1', 's2']), 'sess': rng.pick([1, 2])}}
         if temporal and rng.chance(0.4):
             spec['time_desc']['phase'] = gen.gen_grouping(rng, n_time, kinds=('groups', 'unique'), typ='str')
+        if temporal and rng.chance(0.8 if n_time > 16 else 0.35):
+            # a second numeric time descriptor whose values may repeat (concatenated epochs): usable for subset_time
+            spec['time_desc']['onset'] = gen.gen_grouping(rng, n_time, kinds=('groups', 'unique', 'groups'), typ=rng.pick(['float', 'float', 'int']),
+                                                          fewdups=0.7 if n_time > 16 else 0.25)
         roots.append(spec)
     return {'roots': roots}
 
@@ -389,10 +393,24 @@ class DataOps:
         src = self.pick(o, kinds=('tdataset',))
         if src is None:
             return False
-        tv = [float(x) for x in src.obj.time_descriptors['time']]
+        by = 'onset' if ('onset' in src.obj.time_descriptors and o['flag']) else 'time'
+        tv = [float(x) for x in src.obj.time_descriptors[by]]
         a, b = sorted([tv[o['a'][0] % len(tv)], tv[o['a'][1] % len(tv)]])
+        if o['flag2'] and len(set(tv)) > 4:
+            # a wide window: all but a few of the smallest / largest values
+            dv = sorted(set(tv))
+            a, b = dv[o['a'][2] % 3], dv[-1 - o['a'][3] % 3]
+            dups = [v for v in dv if tv.count(v) > 1]
+            if dups and o['a'][4] % 2:
+                # window boundary right next to a repeated value: everything above it or everything below it
+                d = dups[o['a'][5] % len(dups)]
+                k = dv.index(d)
+                if k + 1 < len(dv) and (o['a'][4] % 4 == 1 or k == 0):
+                    a, b = dv[k + 1], dv[-1]
+                elif k > 0:
+                    a, b = dv[0], dv[k - 1]
         try:
-            res = src.obj.subset_time('time', a, b)
+            res = src.obj.subset_time(by, a, b)
         except Exception as e:
             return self._raise('subset_time', e)
         sem = None
@@ -401,7 +419,7 @@ class DataOps:
             sem['times'] = [t for t, x in zip(src.sem['times'], tv) if a <= x <= b]
             if sem.get('bins') is not None:
                 sem['bins'] = [m for m, x in zip(src.sem['bins'], tv) if a <= x <= b]
-        self._finish('subset_time', [(res, sem)], [src.sid], sig=(src.op,))
+        self._finish('subset_time', [(res, sem)], [src.sid], sig=(src.op, by, len(set(tv)) < len(tv)))
 
     def op_sort_by(self, o):
         t = self.pick(o)
